@@ -1082,7 +1082,7 @@ impl Sim {
         // thread is descheduled right there for 32 .. 16384 scheduler steps (whatever the mode); how often
         // is drawn per operation (one rare site in 2 .. 128).
         let mut suspended_to: Option<usize> = None;
-        let ssh = if kind == YieldKind::Atomic { g.policy.susp_shift.min(2) } else { g.policy.susp_shift };
+        let ssh = if kind == YieldKind::Atomic { g.policy.susp_shift.saturating_sub(1).max(1) } else { g.policy.susp_shift };
         if matches!(kind, YieldKind::BbRare | YieldKind::Atomic) && g.choose(1 << ssh) == 0 {
             let others: Vec<usize> = g.runnable_set().into_iter().filter(|&t| t != me && t != DRIVER).collect();
             if !others.is_empty() {
@@ -1208,7 +1208,7 @@ impl Sim {
                     // priority-change points: the drawn steps, and - one time in three - a rarely
                     // executed site (the place where a narrow window is, if there is one)
                     let sh = g.policy.rare_shift;
-                    let sh = if kind == YieldKind::Atomic { sh.min(2) } else { sh };
+                    let sh = if kind == YieldKind::Atomic { sh.saturating_sub(1).max(1) } else { sh };
                     let at_rare_site = matches!(kind, YieldKind::BbRare | YieldKind::Atomic) && g.choose(1 << sh) == 0;
                     if g.policy.pct_points.contains(&step) || at_rare_site {
                         g.policy.pct_low -= 1;
@@ -1228,7 +1228,7 @@ impl Sim {
                     // the stall begins at the drawn step of the drawn victim, or - one time in three - for
                     // whoever reaches a rarely executed site first
                     let sh = g.policy.rare_shift;
-                    let sh = if kind == YieldKind::Atomic { sh.min(2) } else { sh };
+                    let sh = if kind == YieldKind::Atomic { sh.saturating_sub(1).max(1) } else { sh };
                     if matches!(kind, YieldKind::BbRare | YieldKind::Atomic) && !g.policy.stall_done && !g.policy.stalled && g.choose(1 << sh) == 0 {
                         g.policy.stall_victim = me;
                         g.policy.stall_at = 0;
